@@ -193,6 +193,10 @@ def apply_fault(data, off, fault):
         at = off["sizeField"][fault["i"] - 1]
         old = struct.unpack("<I", data[at:at + 4])[0]
         return data[:at] + u32(old + fault["delta"]) + data[at + 4:]
+    if k == "corruptorig":
+        at = off["sizeField"][fault["i"] - 1] - 12          # record: method, original size, reserved, timestamp, data size
+        old = struct.unpack("<I", data[at:at + 4])[0]
+        return data[:at] + u32(old + fault["delta"]) + data[at + 4:]
     raise vlib.MachineryError("unknown fault " + k)
 
 
@@ -277,6 +281,8 @@ def describe(case):
         s += " fault Truncate(%d)%s" % (f["n"], " of %d bytes" % total if total else "")
     elif f["kind"] == "corruptlen":
         s += " fault CorruptLen(entry %d, %+d)" % (f["i"], f["delta"])
+    elif f["kind"] == "corruptorig":
+        s += " fault CorruptOrig(entry %d, %+d)" % (f["i"], f["delta"])
     elif f["kind"] == "absent":
         s += " fault Absent"
     else:
@@ -634,6 +640,10 @@ def generate(rep, tier, rng):
     for k, sep in enumerate(["\\", "/"]):
         nms = ["init.sqf", "fn_init.sqf", "ui" + sep + "init.sqf", "config.txt", "ui" + sep + "config.txt", "init.sqfx"]
         rnd.append({"props": [["prefix", "pfx"]], "entries": [{"name": nm, "size": 3 + j, "blob": "rel-%d-%d" % (k, j)} for j, nm in enumerate(nms)]})
+    # names that differ in letter case only are different entries
+    for k, sep in enumerate(["\\", "/"]):
+        nms = ["Readme.txt", "readme.txt", "data" + sep + "Init.sqf", "data" + sep + "init.sqf", "DATA" + sep + "init.sqf", "README.TXT"]
+        rnd.append({"props": [["prefix", "pfx"]], "entries": [{"name": nm, "size": 4 + j, "blob": "case-%d-%d" % (k, j)} for j, nm in enumerate(nms)]})
     gr = mc("gen_random", mode="given", emit=True, given=rnd, allpoints=False, deltas=deltas, invariants=[], workers=vlib.NCPU, timeout_s=3000, xmx="16g")
     if not gr.ok:
         raise vlib.MachineryError("generator (random archives) failed: %s" % (gr.error or gr.violated))
